@@ -501,3 +501,73 @@ func TestMapStorm(t *testing.T) {
 	theT = t
 	vk.Run(t, suite, "map-storm", 12, genStorm, runStorm)
 }
+
+// ---------------------------------------------------------------- storm: many workers finishing at the same instant
+//
+// With few items and many workers, all workers sit idle and are released together when the source
+// ends: whatever they do on the way out (count themselves off, close the result channel) happens at
+// the same instant on as many CPUs. A mistake there shows about once in a few hundred to a few
+// thousand runs, usually as a panic on a library goroutine - which the driver reports together with
+// the plan that was running (Crashy suite).
+
+type FinishStormPlan struct {
+	Stream bool `json:"stream"`
+	Par    int  `json:"par"`
+	N      int  `json:"n"`
+	Rounds int  `json:"rounds"`
+}
+
+func genFinishStorm(t *rapid.T) FinishStormPlan {
+	return FinishStormPlan{Stream: rapid.IntRange(0, 2).Draw(t, "stream") == 0, Par: rapid.SampledFrom([]int{4, 8, 16, 32, 64}).Draw(t, "par"),
+		N: rapid.IntRange(0, 3).Draw(t, "n"), Rounds: rapid.IntRange(300, 1500).Draw(t, "rounds")}
+}
+
+func runFinishStorm(p FinishStormPlan) (vk.Outcome, error) {
+	var out vk.Outcome
+	for round := 0; round < p.Rounds; round++ {
+		src := &countIter{n: p.N}
+		got := 0
+		if !p.Stream {
+			it := parallel.MapIterator[int, int](src, p.Par, 0, func(x int) int { return fval(x) })
+			for {
+				v, ok := it.Next()
+				if !ok {
+					break
+				}
+				if v != fval(got) {
+					return out, vk.Violf("order", "round %d: result #%d is %d", round, got, v)
+				}
+				got++
+			}
+		} else {
+			s := parallel.MapStream[int, int](context.Background(), stream.FromIterator[int](src), p.Par, 0,
+				func(_ context.Context, x int) (int, error) { return fval(x), nil })
+			for {
+				v, err := s.Next(context.Background())
+				if err == stream.End {
+					break
+				}
+				if err != nil {
+					return out, vk.Violf("spurious-error", "round %d: MapStream: %v", round, err)
+				}
+				if v != fval(got) {
+					return out, vk.Violf("order", "round %d: result #%d is %d", round, got, v)
+				}
+				got++
+			}
+			s.Close()
+		}
+		if got != p.N {
+			return out, vk.Violf("lost", "round %d: %d of %d results (parallelism %d)", round, got, p.N, p.Par)
+		}
+	}
+	out.NonTrivial, out.Execs = true, p.Rounds
+	out.Label("finish-storm")
+	return out, nil
+}
+
+func TestMapFinishStorm(t *testing.T) {
+	suite.Crashy = true
+	vk.Run(t, suite, "map-finish-storm", 30, genFinishStorm, runFinishStorm)
+	suite.Crashy = false
+}
